@@ -498,6 +498,19 @@ def gen_case(g: FragGen, opts: dict) -> dict:
     else:
         v = g.fv(r.choice([0, 1, 1, 2, 2, 3]))
     xs = []
+    if r.random() < 0.06:
+        # uniqueness across JSON types: `1` and `true` (and `0` / `false`) are different items for the schema and
+        # for the predicate alike, although Python's `==` identifies them
+        sc = lambda ty: {"k": "scalar", "vid": g.vid(), "ty": ty, "coerce": None, "pre": None, "preds": [], "apreds": None}  # noqa: E731
+        v = {"k": r.choice(["list", "utuple"]), "vid": g.vid(),
+             "item": {"k": "union", "vid": g.vid(), "vs": [sc("int"), sc("bool")], "untyped": r.random() < 0.5},
+             "preds": [{"k": "UniqueItems", "pid": g.pid()}], "apreds": None, "coerce": None}
+        if v["k"] == "utuple":
+            v["coerce"] = "default"
+        named = None
+        pool = [I(0), I(1), B(True), B(False), I(2)]
+        for _ in range(3):
+            xs.append({"t": "list", "oid": g.oid(), "xs": [copy.deepcopy(e) for e in r.sample(pool, r.choice([2, 3, 4]))]})
     for _ in range(opts.get("inputs", 6)):
         c = r.random()
         x = g.jarbitrary() if c < 0.15 else g.jconform(v)
